@@ -17,7 +17,7 @@ LEVEL_NOTE = ("In-process stack only (IdleReleaseDecorator + PersistenceDecorato
 DESIGN_REF = "§5 C36"
 RULE = "case = (program, idle_timeout, send schedule, store); distinct = hash of the scenario; non-trivial = a release happened and a later send reloaded the run"
 REQUIRED_REACH = ["scenario", "released_checked", "not_released_early_checked", "send_before_release_kept_in_memory", "reload_after_release", "finished_after_reload",
-                  "store_sqlite", "store_memory", "slow_store"]
+                  "store_sqlite", "store_memory", "slow_store", "stack_inproc", "stack_dbos_sub"]
 ASSUMPTIONS = ["DBOS half of the property not decided (see level_note)"]
 
 
@@ -35,14 +35,19 @@ def gen_case(seed):
     spec["sched_seed"] = seed
     return {"seed": seed, "spec": spec, "keys": keys, "I": rnd.choice([0.5, 1, 2, 5]), "mode": rnd.choice(["after", "after", "before_one", "before_one"]),
             "gap": rnd.choice([0.25, 1, 3]), "store": rnd.choice(["sqlite", "memory"]), "delta": rnd.choice([0.1, 0.25]),
-            "store_latency": rnd.choice([None, None, 0.01, 0.04])}
+            "store_latency": rnd.choice([None, None, 0.01, 0.04]), "stack": rnd.choice(["inproc", "inproc", "dbos_sub"])}
 
 
 def run_one(case, acc):
     from vf import idle_cases as ic
 
     wit = {"case": case}
-    t_idle = ic.idle_instant(case["spec"], case.get("store_latency"))
+    stack = case.get("stack", "inproc")
+
+    def V(sig, what, w):
+        acc.violation({**sig, "stack": stack} if stack != "inproc" else sig, (f"[{stack} stack] " if stack != "inproc" else "") + what, w)
+
+    t_idle = ic.idle_instant(case["spec"], case.get("store_latency"), case.get("stack", "inproc"))
     if t_idle is None:
         acc.inconclusive.append(f"reference run never became idle seed={case['seed']}")
         return
@@ -63,9 +68,11 @@ def run_one(case, acc):
         for i, k in enumerate(keys[1:]):
             sends.append({"at": t_late + 0.125 * i, "pay": {"key": k}})
     scn = {"spec": case["spec"], "idle_timeout": I, "sends": sends, "probes": probes, "store": case["store"], "end": 200.0,
-           "store_latency": case.get("store_latency")}
+           "store_latency": case.get("store_latency"), "stack": case.get("stack", "inproc")}
     if case.get("store_latency"):
         acc.hit("slow_store")
+    acc.hit("stack_" + case.get("stack", "inproc"))
+    wit["stack"] = case.get("stack", "inproc")
     obs, cs = ic.run_scenario(scn)
     acc.case()
     acc.hit("scenario")
@@ -87,18 +94,18 @@ def run_one(case, acc):
         if cur is None or seen_order.index(rid_obj) >= seen_order.index(cur):
             newest[run_id] = rid_obj
         else:
-            acc.violation({"mech": "two_control_loops_executing_one_run"}, f"an older control loop of run {run_id} processed {tname} at vt={t} after a newer loop had taken over; loops: {obs['loop_log'][-6:]}", wit)
+            V({"mech": "two_control_loops_executing_one_run"}, f"an older control loop of run {run_id} processed {tname} at vt={t} after a newer loop had taken over; loops: {obs['loop_log'][-6:]}", wit)
             break
     if case["mode"] == "after":
         before, after = samples[0], samples[1]
         acc.hit("not_released_early_checked")
         if before["live"] != 1:
-            acc.violation({"mech": "released_before_idle_timeout"}, f"idle since vt={t_idle}, idle_timeout={I}: at vt={before['t']} no control loop is alive (handler {before['h']})", wit)
+            V({"mech": "released_before_idle_timeout"}, f"idle since vt={t_idle}, idle_timeout={I}: at vt={before['t']} no control loop is alive (handler {before['h']})", wit)
         acc.hit("released_checked")
         if after["live"] != 0:
-            acc.violation({"mech": "idle_run_not_released"}, f"idle since vt={t_idle}, idle_timeout={I}: control loop still alive at vt={after['t']}", wit)
+            V({"mech": "idle_run_not_released"}, f"idle since vt={t_idle}, idle_timeout={I}: control loop still alive at vt={after['t']}", wit)
         elif not (after["h"] and after["h"]["idle"] and after["h"]["status"] == "running"):
-            acc.violation({"mech": "released_handler_not_marked_idle"}, f"released run's handler record is {after['h']}", wit)
+            V({"mech": "released_handler_not_marked_idle"}, f"released run's handler record is {after['h']}", wit)
         if obs["releases"] and obs["loops_started"] >= 2:
             acc.hit("reload_after_release")
             acc.sig(h({"s": case["seed"], "I": I, "m": case["mode"], "st": case["store"]}))
@@ -109,19 +116,19 @@ def run_one(case, acc):
         elif s0["live"] == 1 and obs["loops_started"] == 1 or (s0["live"] == 1 and not [r for r in obs["releases"] if r["t"] <= s0["t"]]):
             acc.hit("send_before_release_kept_in_memory")
         else:
-            acc.violation({"mech": "send_before_release_did_not_keep_run"}, f"send at {sends[0]['at']} (release due at {t_idle + I}): sample {s0}, releases {obs['releases'][:2]}", wit)
+            V({"mech": "send_before_release_did_not_keep_run"}, f"send at {sends[0]['at']} (release due at {t_idle + I}): sample {s0}, releases {obs['releases'][:2]}", wit)
         if len(samples) > 1:
             acc.hit("released_checked")
             if samples[1]["live"] != 0 and len(keys) > 1:
-                acc.violation({"mech": "idle_run_not_released", "after": "second_idle_period"}, f"run idle again after the early send but still alive at vt={samples[1]['t']}", wit)
+                V({"mech": "idle_run_not_released", "after": "second_idle_period"}, f"run idle again after the early send but still alive at vt={samples[1]['t']}", wit)
         if obs["releases"] and obs["loops_started"] >= 2:
             acc.hit("reload_after_release")
             acc.sig(h({"s": case["seed"], "I": I, "m": case["mode"], "st": case["store"]}))
     bad_sends = [s for s in obs["sends"] if not s["ok"]]
     if bad_sends:
-        acc.violation({"mech": "send_to_idle_run_failed"}, f"sending to the (released) run failed: {cs.tr.rec.of('send_error')[:2]}", wit)
+        V({"mech": "send_to_idle_run_failed"}, f"sending to the (released) run failed: {cs.tr.rec.of('send_error')[:2]}", wit)
     if final is None or final["status"] != "completed" or final["result"] != {"done": True, "in": "joined"} and final["result"] is None:
-        acc.violation({"mech": "reloaded_run_did_not_finish", "status": final and final["status"]}, f"after all answers were sent the handler is {final}; releases={len(obs['releases'])} loops={obs['loops_started']}", wit)
+        V({"mech": "reloaded_run_did_not_finish", "status": final and final["status"]}, f"after all answers were sent the handler is {final}; releases={len(obs['releases'])} loops={obs['loops_started']}", wit)
     else:
         acc.hit("finished_after_reload")
     acc.sample({"seed": case["seed"], "idle_timeout": I, "mode": case["mode"], "store": case["store"], "t_idle": t_idle, "sends": sends,
